@@ -31,7 +31,7 @@ def validate_simple(module, trace, wd, name, max_rounds=10):
         cur = os.path.join(wd, "%s_cut%d.ndjson" % (name, rnd))
         open(cur, "w").writelines(cl)
     else:
-        raise core.ToolError("more than %d rejected events in %s" % (max_rounds, trace))
+        core.log("stopped after %d rejected events; the rest of %s was not validated" % (max_rounds, trace))
     return rej, states
 
 
@@ -44,6 +44,8 @@ def attribute(ev):
         return "C16"
     if ev.get("narrow", 0) != 0:
         return "C19"
+    if ev.get("dbg_same") is False:
+        return "C17"
     return "C15"
 
 
